@@ -130,8 +130,25 @@ fn main() {
                         None => (0, false, false, -1),
                     };
                     let (os, oe) = r.outer.unwrap_or((r.start, r.end));
-                    rr.entry(format!("\"kind\":\"{}\",\"f\":{},\"nf\":{},\"s\":{},\"e\":{},\"len\":{},\"bs\":{},\"be\":{},\"ntok\":{},\"os\":{},\"oe\":{}",
-                        r.kind, r.file, files.len(), r.start, r.end, len, bs, be, ntok, os, oe)).or_insert(ci);
+                    // the range as the client receives it (the server's own conversion, through the hook) and what the
+                    // client's copy of the document looks like there: number of lines, UTF-16 length of the two lines
+                    let mut lsp = (false, 0u32, 0u32, 0u32, 0u32, 0usize, -1i64, -1i64);
+                    if let Some((_, tx)) = files.get(r.file as usize) {
+                        if bs && be && r.start <= r.end && r.end <= tx.len() && !tx.contains('\r') {
+                            let conv = catch(|| {
+                                let (_, lm) = glas::verif::LineMap::verif_new(tx.clone());
+                                glas::verif::to_range(&lm, syntax::TextRange::new((r.start as u32).into(), (r.end as u32).into()))
+                            });
+                            let lines: Vec<&str> = tx.split('\n').collect();
+                            let l16 = |i: u32| lines.get(i as usize).map(|l| l.encode_utf16().count() as i64).unwrap_or(-1);
+                            match conv {
+                                Ok(g) => lsp = (true, g.start.line, g.start.character, g.end.line, g.end.character, lines.len(), l16(g.start.line), l16(g.end.line)),
+                                Err(_) => lsp = (true, u32::MAX >> 1, 0, u32::MAX >> 1, 0, lines.len(), -1, -1),
+                            }
+                        }
+                    }
+                    rr.entry(format!("\"kind\":\"{}\",\"f\":{},\"nf\":{},\"s\":{},\"e\":{},\"len\":{},\"bs\":{},\"be\":{},\"ntok\":{},\"os\":{},\"oe\":{},\"lsp\":{},\"sl\":{},\"sc\":{},\"el\":{},\"ec\":{},\"nl\":{},\"l16s\":{},\"l16e\":{}",
+                        r.kind, r.file, files.len(), r.start, r.end, len, bs, be, ntok, os, oe, lsp.0, lsp.1, lsp.2, lsp.3, lsp.4, lsp.5, lsp.6, lsp.7)).or_insert(ci);
                 }
             }
             let mut t = totals.lock().unwrap();
